@@ -3218,7 +3218,13 @@ define_array_type(InterrogateType &itype, CPPArrayType *cpptype) {
     // This indicates an unsized array.
     itype._array_size = -1;
   } else {
-    itype._array_size = cpptype->_bounds->evaluate().as_integer();
+    CPPExpression::Result result = cpptype->_bounds->evaluate();
+    if (result._type == CPPExpression::RT_integer) {
+      itype._array_size = result.as_integer();
+    } else {
+      // We don't know how to evaluate the bound; the size is unknown.
+      itype._array_size = -1;
+    }
   }
 }
 
